@@ -183,6 +183,7 @@ PROPS["C11"] = {
     "required_classes": ["hostile_calls", "case_via_rpc"],
     "units": [
         {"test": "^TestRegressC11$", "norapid": True, "quick": {"shards": 1}, "thorough": {"shards": 1}},
+        {"test": "^TestC11Full$", "quick": {"checks": 40, "shards": 4, "steps": 40}, "thorough": {"checks": 500, "shards": 8, "steps": 60}},
         {"test": "^TestC11Hostile$", "oom_is_violation": True, "quick": {"checks": 100, "shards": 8, "steps": 40}, "thorough": {"checks": 2500, "shards": 12, "steps": 60}},
         {"test": "^FuzzC11Args$", "fuzz": True, "oom_is_violation": True, "quick": {"shards": 1}, "thorough": {"shards": 1, "fuzztime": 600, "procs": 16, "timeout": 1500}},
     ],
